@@ -113,8 +113,12 @@ fn main() {
     if std::env::var("FDX_VERBOSE").is_err() {
         std::panic::set_hook(Box::new(|_| {}));
     }
-    let _ = log::set_logger(&LOGGER);
-    log::set_max_level(log::LevelFilter::Trace);
+    // Logging fully on (every argument of info!/debug!/trace! is evaluated and formatted) unless FDX_NOLOG is set, in
+    // which case no logger is installed at all, as in a program that never set one up.
+    if std::env::var("FDX_NOLOG").is_err() {
+        let _ = log::set_logger(&LOGGER);
+        log::set_max_level(log::LevelFilter::Trace);
+    }
 
     let args: Vec<String> = std::env::args().collect();
     if args.len() >= 2 && args[1] == "run" {
